@@ -85,6 +85,11 @@ def node_pool(rng, kind=None, k=None):
         pool = list(range(k))
     elif kind == "gap":
         pool = rng.sample(range(-5, 40), k)
+        if k >= 2 and rng.random() < 0.25 and not (-1 in pool and -2 in pool):
+            # hash twins: hash(-1) == hash(-2); anything keyed or ordered by the hash of a label (or of a set of labels) confuses them
+            rest = [x for x in pool if x not in (-1, -2)]
+            pool = [-1, -2] + rest[: k - 2]
+            rng.shuffle(pool)
     elif kind == "tuple":
         pool = rng.sample([(i, j) for i in range(3) for j in range(3)], min(k, 9))  # grid coordinates
     else:
@@ -98,6 +103,10 @@ def eid_pool(rng, kind=None, k=8):
         pool = list(range(k))
     elif kind == "gap":
         pool = rng.sample(range(-3, 30), k)
+        if k >= 2 and rng.random() < 0.25 and not (-1 in pool and -2 in pool):
+            rest = [x for x in pool if x not in (-1, -2)]
+            pool = [-1, -2] + rest[: k - 2]
+            rng.shuffle(pool)
     elif kind == "perm":
         pool = list(range(k))
         rng.shuffle(pool)
